@@ -11,12 +11,16 @@
     convertAssign, asString, driver.Bool.ConvertValue) and go-sql-driver/mysql (NullTime.Scan) that
     Scanner.Scan delegates to.
 
-    Floats and times are opaque: a float is named by an integer (the harness uses the IEEE-754
-    binary64 bit pattern, NaN and -0 excluded), a time by its Unix nanoseconds (UTC, no monotonic
-    reading).  Everything strconv / time do with them is a field of [env]; the laws the theorems
-    need are hypotheses on [env] (CodecProofs.v), the correspondence run fills [env] with tables
-    computed by Go itself. Integer text is real decimal text ([print_Z]/[parse_Z]). *)
+    Floats are opaque: a float is named by an integer (the harness uses the IEEE-754 binary64 bit
+    pattern, NaN and -0 excluded).  Everything strconv does with them is a field of [env]; the laws the
+    theorems need are hypotheses on [env] (CodecProofs.v), the correspondence run fills these fields
+    with tables computed by Go itself.  A time is its Unix nanoseconds (UTC, no monotonic reading); the
+    text forms of times are fields of [env] too, and Sql/TimeText.v gives them concretely
+    ([time_env], CodecTime.v: formatting and mysql.parseDateTime as Gallina functions, their round
+    trip proved), which is what the correspondence run evaluates.  Integer text is real decimal text
+    ([print_Z]/[parse_Z]). *)
 From Coq Require Import List ZArith String Ascii Bool DecimalString DecimalZ.
+From Thunder Require Import Sql.TimeText.
 Import ListNotations.
 Open Scope string_scope.
 Open Scope Z_scope.
@@ -575,7 +579,7 @@ Definition storable (c : sqlcol) (v : dval) : bool :=
   | DInt _, (ColVarchar | ColBlob) => true
   | DFloat _, (ColFloat | ColDouble) => true
   | (DStr _ | DBytes _), (ColVarchar | ColBlob) => true
-  | DTime _, ColDatetime _ => true
+  | DTime t, ColDatetime _ => text_range t    (* DATETIME holds the years 0000 .. 9999 *)
   | _, _ => false
   end.
 
